@@ -3,6 +3,9 @@ import JS.Props.C04
 import JS.Props.C07
 import JS.Props.C08
 import JS.Props.C09
+import JS.Props.C10
+import JS.Props.C12
 import JS.Props.C14
 import JS.Props.C15
 import JS.Props.C17
+import JS.Props.C20
